@@ -291,7 +291,8 @@ class NameServer(object):
         Returns tuple (uri, metadata) if return_metadata is True.
         """
         try:
-            uri, metadata = self.storage[name]
+            with self.lock:
+                uri, metadata = self.storage[name]
             uri = core.URI(uri)
             if return_metadata:
                 return uri, set(metadata or [])
